@@ -82,8 +82,11 @@ def gen_seed_pool(w, rng, cfg, tree, tier):
         s2 = w.execute({"op": "nested", "in": [s.id], "index": rng.randint(1, n - 1)}, rng)
         s = s2 or s
     if rng.chance(0.25):
-        g = w.execute({"op": "graft", "in": [s.id], "append": [zoo_expr(rng) for _ in range(rng.randint(1, 3))],
-                       "swap": [[rng.randint(0, 40), zoo_expr(rng)]] if rng.chance(0.4) else []}, rng)
+        gop = {"op": "graft", "in": [s.id], "append": [zoo_expr(rng) for _ in range(rng.randint(1, 3))],
+               "swap": [[rng.randint(0, 40), zoo_expr(rng)]] if rng.chance(0.4) else []}
+        if rng.chance(0.15):
+            gop["junk_tail"] = rng.randint(0, 100)
+        g = w.execute(gop, rng)
         s = g or s
     d = w.execute({"op": "from_code", "in": [s.id]}, rng)
     if d is not None and not w.stop:
